@@ -51,6 +51,8 @@ def run(rep: Report, tier: str) -> None:
 	rule_primary_closed(rep, tm)
 	rule_comparison_chain(rep, idx, pm, gm)
 	rule_keyword_arguments(rep, idx, pm, tm)
+	rule_len_signed(rep, tm)
+	rule_slice_keys(rep, tm, pm)
 	rule_group_parens(rep, pm, tm)
 	rule_range_arguments(rep, pm, tm)
 	rule_initializer_conversion(rep, pm)
@@ -63,6 +65,7 @@ def run(rep: Report, tier: str) -> None:
 	rule_enumerate_index(rep, tm)
 	rule_range_bound_closed(rep, idx, pm, tm, nm)
 	rule_comment_line(rep, tm)
+	rule_exception_aliases(rep, idx)
 
 
 # ---- (a) precedence ---------------------------------------------------------------------------------------------------
@@ -626,6 +629,56 @@ def rule_comparison_chain(rep, idx, pm, gm) -> None:
 	r.check(conj or refuses, 'on_comparison:chain', h.where, f'on_comparison renders every comparison through {[g.name for g in members][1:]} — the left fold used for arithmetic — with no conjunction and no rejection of chains: `a < b < c` is emitted verbatim and C++ evaluates `(a < b) < c` (for 3, 2, 1: Python False, C++ true)', 'a < b < c')
 
 
+def rule_len_signed(rep, tm) -> None:
+	"""len() is a Python int: `len(xs) - 1` is -1 for an empty list, `len(xs) - 1 < 0` is True, `range(len(xs) - 1)` is empty. The member the template
+	renders (`size()` of the std containers / std::string) returns an UNSIGNED size_type, and C++ converts the other operand of `-`, `<`, `i < bound`
+	to unsigned as well: the difference wraps to 2**64 - 1. The rendered expression therefore needs a conversion to a signed type around it."""
+	import re
+	r = rep.rule('C01/len-result-is-signed', 'every branch of func_call/len.j2 renders the container size inside a conversion to a signed integer type (static_cast<int>(...), int(...), (int)..., std::ssize(...))', floor=1)
+	name = 'func_call/len'
+	if not tm.parses(name):
+		r.skip(name, (tm.relpath(name), 1), 'func_call/len.j2 not readable')
+		return
+	unsigned: list[str] = []
+	n_sized = 0
+	for cond, parts in tm.branches(name):
+		pat = ''
+		for p_ in parts:
+			pat += p_[1] if p_[0] == 'text' else ('X' if p_[0] in ('var', 'expr') else '')
+		pat = pat.strip().rstrip(';').strip()
+		sized = any(p_[0] in ('var', 'expr') and '.size' in p_[1] for p_ in parts) or '.size()' in pat
+		if not sized:
+			r.skip(f'{name}[{cond[:30]}]', (tm.relpath(name), 1), f'branch renders `{pat[:60]}`, not a size() member call')
+			continue
+		n_sized += 1
+		if re.match(r'^(static_cast<\s*(int|long|long long|int32_t|int64_t|ssize_t|std::ptrdiff_t|ptrdiff_t)\s*>\(|int\(|\(int\)|std::ssize\()', pat) is None:
+			unsigned.append(pat[:40])
+	if n_sized:
+		r.check(not unsigned, name, (tm.relpath(name), 1), f'func_call/len.j2 renders {unsigned}: size() of the std containers is unsigned, so arithmetic and comparisons with it are done modulo 2**64 — for an empty list `len(xs) - 1 < 0` is false in C++ (CPython: True) and `for i in range(len(xs) - 1)` is emitted `for (auto i = 0; i < xs.size() - 1; ...)`, which runs past the end (CPython: no iteration); compiled and run with g++ -std=c++20')
+
+
+def rule_slice_keys(rep, tm, pm) -> None:
+	"""A slice `x[a:b:c]` reaches its template as keys = [a, b, c] (an omitted part is empty). The templates of the two receiver kinds (list, str) are
+	siblings: each has to consume all three keys — a template that never reads keys[2] renders `s[::2]` exactly like `s[:]`."""
+	r = rep.rule('C01/slice-templates-use-every-key', 'every indexer/slice_* template reads keys[0], keys[1] and keys[2] (start, stop, step)', floor=2)
+	n = tm.nodes
+	names = sorted(nm for nm in tm.asts if nm.startswith('indexer/slice_'))
+	if not names:
+		r.skip('indexer/slice_*', ('data/cpp/template/indexer', 1), 'no indexer/slice_* template')
+	for nm in names:
+		used = set()
+		for g in tm.asts[nm].find_all(n.Getitem):
+			if isinstance(g.node, n.Name) and g.node.name == 'keys' and isinstance(g.arg, n.Const) and isinstance(g.arg.value, int):
+				used.add(g.arg.value)
+		whole = any(isinstance(x, n.Name) and x.name == 'keys' for x in tm.asts[nm].find_all(n.Name)) and not used
+		if whole:
+			r.skip(nm, (tm.relpath(nm), 1), 'keys is consumed as a whole (loop / filter), not by index')
+			continue
+		missing = sorted({0, 1, 2} - used)
+		what = {0: 'start', 1: 'stop', 2: 'step'}
+		r.check(not missing, nm, (tm.relpath(nm), 1), f'{nm}.j2 never reads keys[{missing[0] if missing else "?"}] (the {what.get(missing[0]) if missing else "?"} of the slice): `s[::2]` is rendered like `s[:]` — `s.substr(0, s.size())` — and returns every character (CPython: every second one); the sibling templates read {sorted(used)} / all three')
+
+
 def rule_keyword_arguments(rep, idx, pm, tm) -> None:
 	"""`f(b=1, a=2)` binds by name in Python. The C++ call is positional, so the label must either be used to reorder the arguments into parameter order
 	or a labelled argument out of order must be rejected; dropping the label emits the values in call order."""
@@ -1073,3 +1126,53 @@ def rule_comment_line(rep: Report, tm: TemplateModel) -> None:
 		r.violate(name, (tm.relpath(name), 1), f'the emitted line ends with the comment text `{{{{ {tail.name} }}}}` as written: `# see dir\\\\` becomes `// see dir\\\\`, the backslash-newline splices the following C++ line into the comment, and the statement after the comment silently vanishes (`x = n` after such a comment: the function returns the old x)', tm.sources[name].strip())
 	else:
 		r.ok(name, (tm.relpath(name), 1))
+
+
+# ISO C++ <stdexcept> / <exception>: class -> direct base (trusted table)
+STD_EXCEPTION_BASE = {
+	'std::exception': None,
+	'std::logic_error': 'std::exception', 'std::runtime_error': 'std::exception', 'std::bad_alloc': 'std::exception', 'std::bad_cast': 'std::exception',
+	'std::invalid_argument': 'std::logic_error', 'std::domain_error': 'std::logic_error', 'std::length_error': 'std::logic_error', 'std::out_of_range': 'std::logic_error',
+	'std::range_error': 'std::runtime_error', 'std::overflow_error': 'std::runtime_error', 'std::underflow_error': 'std::runtime_error', 'std::system_error': 'std::runtime_error',
+}
+
+
+def rule_exception_aliases(rep: Report, idx: SourceIndex) -> None:
+	"""`except B` catches every exception whose class derives from B. The exception classes of the library stub are renamed to C++ classes through
+	data/i18n.yml; the renaming must keep the order: when Python class A derives from B, alias(A) must be a PROPER descendant of alias(B) in the C++
+	hierarchy, and the alias of `Exception` — the class every handler of last resort names — must be the root `std::exception`, or the exceptions the
+	C++ runtime itself throws (std::stoi -> std::invalid_argument for `int('abc')`) pass by `except Exception` and terminate the program."""
+	try:
+		import yaml
+	except ImportError as e:
+		raise AnalysisError(f'PyYAML not importable: {e}')
+	r = rep.rule('C01/exception-aliases-keep-the-hierarchy', 'for exception classes A < B of the library stub with C++ aliases in data/i18n.yml, alias(A) is a proper descendant of alias(B) in the ISO C++ exception hierarchy; alias(Exception) is std::exception', floor=2)
+	with open(os.path.join(REPO, 'data/i18n.yml'), encoding='utf-8') as fh:
+		data = yaml.safe_load(fh)
+	stub = idx.mod('rogw/tranp/compatible/libralies/classes.py')
+	rep.consulted(stub.relpath, 'data/i18n.yml')
+	prefix = 'aliases.rogw.tranp.compatible.libralies.classes#'
+	alias = {k[len(prefix):]: str(v) for k, v in data.items() if isinstance(k, str) and k.startswith(prefix)}
+	base_exc = stub.cls('BaseException')
+	excs = [c for c in stub.classes.values() if base_exc is not None and base_exc in idx.mro(c) and c.name in alias]
+	if not excs:
+		r.skip('exception-aliases', (stub.relpath, 1), 'no aliased exception class found in the library stub')
+		return
+
+	def ancestors(cpp: str) -> list[str]:
+		out = []
+		cur = STD_EXCEPTION_BASE.get(cpp)
+		while cur is not None:
+			out.append(cur)
+			cur = STD_EXCEPTION_BASE.get(cur)
+		return out
+	for c in sorted(excs, key=lambda c_: c_.name):
+		if alias[c.name] not in STD_EXCEPTION_BASE:
+			r.skip(f'{c.name}->{alias[c.name]}', ('data/i18n.yml', 1), f'`{alias[c.name]}` is not a class of the ISO C++ exception table this check holds')
+			continue
+		if c.name == 'Exception':
+			r.check(alias[c.name] == 'std::exception', 'Exception->root', ('data/i18n.yml', 1), f'`Exception` is renamed `{alias[c.name]}`: `except Exception as e:` becomes `catch ({alias[c.name]} e)`, which does not catch the exceptions the C++ library raises on its own (`int("abc")` -> std::stoi throws std::invalid_argument, a std::logic_error): the handler CPython runs is skipped and the program terminates', f'{prefix}Exception: {alias[c.name]}')
+		for b in idx.mro(c)[1:]:
+			if b.name not in alias or alias[b.name] not in STD_EXCEPTION_BASE:
+				continue
+			r.check(alias[b.name] in ancestors(alias[c.name]), f'{c.name}<{b.name}', ('data/i18n.yml', 1), f'Python `{c.name}` derives from `{b.name}`, but its alias `{alias[c.name]}` is not a proper descendant of `{alias[b.name]}`: `except {b.name}` no longer catches exactly what it catches under CPython (identical aliases give two identical catch clauses; unrelated ones let the exception pass)', f'{c.name}: {alias[c.name]} / {b.name}: {alias[b.name]}')
